@@ -385,7 +385,9 @@ class Array(metaclass=MetaArray):
                     dshape = []  # index of dynamic shapes
                     for ndim in cls._shape:
                         if ndim is None:
-                            shape.append(args[len(dshape)])
+                            # (a python integer: a numpy integer of a narrow
+                            # type would overflow in sizes and strides)
+                            shape.append(int(args[len(dshape)]))
                             dshape.append(len(shape))
                         else:
                             shape.append(ndim)
